@@ -57,6 +57,8 @@ type gen struct {
 	specStack     map[*ssa.Function]bool
 	absDivMod     bool
 	maxDepth      int
+	macroMemo     map[string]*val
+	onlyPats      []string
 	baseHeaps     []baseHeap
 	inQuant       int
 	excluded      []string
